@@ -258,8 +258,13 @@ func filterMethodCall(blockContext antlr.Tree) {
 }
 
 func buildRestApiWithParameters(ctx *parser.MethodDeclarationContext) {
-	parameterList := ctx.FormalParameters().GetChild(1).(*parser.FormalParameterListContext)
-	formalParameter := parameterList.AllFormalParameter()
+	// a receiver parameter (void m(Foo this, int x)) precedes the formal parameter list, if there is one
+	var formalParameter []parser.IFormalParameterContext
+	for _, child := range ctx.FormalParameters().GetChildren() {
+		if parameterList, ok := child.(*parser.FormalParameterListContext); ok {
+			formalParameter = parameterList.AllFormalParameter()
+		}
+	}
 	for _, param := range formalParameter {
 		paramContext := param.(*parser.FormalParameterContext)
 
